@@ -32,7 +32,11 @@ RULE = (
     "zero-size blocks on the 0-d grid); one case = (grid, dof map, first two operations); rejected "
     "duplicate creations are verified (KeyError) and not continued; non-trivial = a state with >= 2 "
     "live atomic variables whose demanded block order differs from creation order or that was "
-    "reached through a removal; distinct by (grid, dof map, live variables in creation order)"
+    "reached through a removal; distinct by (grid, dof map, live variables in creation order); "
+    "observation is an operation of its own: histories are replayed without any layout look-up "
+    "between the mutations, and every history of length <= obs_len (G1: 4, G2: 3) is additionally "
+    "replayed with exactly one full observation after j = 0..n-1 operations followed by unobserved "
+    "mutations (stale caches between look-ups)"
 )
 ASSUMPTIONS = [
     "canonical state = live atomic variables (name, grid rank) in creation order; the registry's "
@@ -65,7 +69,7 @@ def cases(tier):
         for pre in dm.enumerate_prefixes(grid, 2):
             first = repr(pre[0])
             out.append({"grid": grid, "dofmap": dofmap, "prefix": pre, "depth": depth,
-                        "check_parent": first not in seen_first})
+                        "obs_len": {"G1": 4, "G2": 3}[grid], "check_parent": first not in seen_first})
             seen_first.add(first)
     return out
 
@@ -146,6 +150,12 @@ class State:
                     return None
                 except KeyError:
                     pass
+            if live:
+                P = es.projection_to(list(live))
+                if P.shape != (n, n) or P.nnz != n:
+                    self.bad("projection_to(all variables) is not a permutation-free identity of size num_dofs",
+                             got_shape=list(P.shape), num_dofs=n)
+                    return None
             if [id(v) for v in es.variables] != [id(v) for v in live]:
                 self.bad("EquationSystem.variables is not the list of live variables in creation order")
                 return None
@@ -259,6 +269,11 @@ class State:
                         self.bad("values written in global order did not arrive in the storage of the owning variable",
                                  variable=list(mlive[k]), storage=loc, expected=exp, got=got, live=mlive)
                         return
+            # recounting the dofs on an unchanged grid must not change the layout
+            es.update_variable_num_dofs()
+            if es.num_dofs() != n or any(not np.array_equal(es.dofs_of([v]), np.arange(*blocks[k])) for k, v in enumerate(live)):
+                self.bad("update_variable_num_dofs on an unchanged md-grid changed the layout", live=mlive)
+                return
             # empty requests
             if es.projection_to(None).shape != (0, n) or es.projection_to([]).shape != (0, n):
                 self.bad("projection_to(no variables) is not the empty projection")
@@ -272,9 +287,15 @@ def run_case(case) -> Outcome:
     prefix = [list(o) for o in case["prefix"]]
     heavy_done: set = set()
 
-    def build_full(ops):
+    def build_full(ops, observe_at=None):
+        """Replays ``ops`` on a fresh system WITHOUT any layout look-up in between, except
+        for one full observation (``light_check``) after ``observe_at`` operations."""
         st = State(grid, dofmap)
-        for op in ops:
+        for k, op in enumerate(ops):
+            if observe_at == k:
+                st.light_check()
+                if st.problems:
+                    break
             st.step(op)
             if st.abort or st.problems:
                 break
@@ -303,6 +324,21 @@ def run_case(case) -> Outcome:
                 heavy_done.add(st.model.canon())
                 st.heavy_check(*lc)
                 o.extra["heavy_checks"] = o.extra.get("heavy_checks", 0) + 1
+        # observation as an explicit operation: the same history with ONE intermediate
+        # observation after j operations (j = 0..n-1) and silent mutations afterwards
+        if not st.problems and not st.abort and 0 < len(st.hist) <= case.get("obs_len", 0):
+            for j in range(len(st.hist)):
+                st2 = build_full(st.hist, observe_at=j)
+                if not st2.problems:
+                    st2.light_check()
+                o.extra["observed_variants"] = o.extra.get("observed_variants", 0) + 1
+                if st2.problems:
+                    p = dict(st2.problems[0])
+                    p["what"] = p["what"] + " [after an intermediate layout look-up followed by unobserved mutations]"
+                    p["observed_after_ops"] = j
+                    p["history"] = list(st.hist)
+                    st.problems.append(p)
+                    break
         if st.problems:
             p = st.problems[0]
             o.violate(p["what"], grid=grid, dofmap=dofmap, **{k: v for k, v in p.items() if k != "what"})
